@@ -94,7 +94,7 @@ def race_strategy():
 
     @st.composite
     def build(draw):
-        target = draw(st.sampled_from(['kids', 'kids', 'kids', 'tags', 'ps', 'pattr', 'kattr', 'kp', 'tattr']))
+        target = draw(st.sampled_from(['kids', 'kids', 'kids', 'tags', 'ps', 'pattr', 'kattr', 'kp', 'kp', 'kp', 'tattr']))
         a, b = draw(c), draw(c)
         if target in ('kids', 'tags', 'ps'):
             ci = {'kids': 0, 'tags': 1, 'ps': 2}[target]
@@ -118,8 +118,10 @@ def race_strategy():
             obs = [draw(st.sampled_from([['attr', 1, a, ai], ['todict', 1, a, 0]]))]
             change = ['setk', a, ai % 2, draw(c)]        # attr index 1 -> n (odd), 2 -> s (even)
         elif target == 'kp':
+            a = a % 4                               # reader (pk list of 5) and writer (first 4 children) address the same child
             obs = [['attr', 1, a, 0]]
-            change = draw(st.sampled_from([['move', a, b, 0], ['delk', a, 0, 0]]))
+            change = draw(st.sampled_from([['move', a, b, 0], ['move', a, b, 0], ['delk', a, 0, 0]]))
+            orphan = draw(st.booleans())            # the observed reference is None to begin with
         else:
             obs = [['attr', 2, a, 0]]
             change = draw(st.sampled_from([['sett', a, 0, draw(c)], ['delt', a, 0, 0]]))
@@ -144,7 +146,13 @@ def race_strategy():
             sch[pos] = val
         if draw(st.integers(0, 5)) == 0:
             sch = draw(schedule)
-        return {'layout': draw(layout), 'data': draw(data), 'actors': actors, 'schedule': sch}
+        d = draw(data)
+        if target == 'kp' and orphan and a % 5 < 4:
+            d['kids'] = list(d['kids'])
+            d['kids'][a % 5] = 3                    # parent choice 3 = no parent (NULL)
+            if change[0] == 'move' and change[2] % 4 == 2:
+                change[2] += 1                      # ... and the writer gives it one
+        return {'layout': draw(layout), 'data': d, 'actors': actors, 'schedule': sch}
     return build()
 
 
